@@ -364,6 +364,16 @@ func RunProperty(p *Property, o RunOpts) int {
 		}
 		cases = sel
 	}
+	if k := os.Getenv("PCVERIF_ONLY_KIND"); k != "" {
+		// development aid: restrict to case kinds containing the substring
+		var sel []Case
+		for _, c := range cases {
+			if strings.Contains(c.Kind, k) {
+				sel = append(sel, c)
+			}
+		}
+		cases = sel
+	}
 	if len(cases) == 0 {
 		fmt.Printf("INCONCLUSIVE property=%s no cases generated\n", p.ID)
 		return 2
